@@ -167,6 +167,26 @@ add(
     "Velocities generated by the external GROMACS binary are outside the property. Tolerances follow the written precision (15.9f in xyz/g96).",
 )
 
+add(
+    "C19",
+    "property-based round-trip / differential testing (Hypothesis) with independent readers, an independent TRR encoder and reference models of the template editors",
+    "g96, extended-xyz and lammpstrj files are written by the harness and read by infretis, and written by infretis and read by independent "
+    "parsers (values filling the fixed-width fields, shuffled ids, non-zero lower box bounds, 3/9-component boxes, multi-frame files, frame k "
+    "extraction, velocity reversal changes velocities only); TRR frames from an independent struct encoder decode exactly for 2 byte orders x "
+    "2 precisions and identically across byte orders; mdp / CP2K / LAMMPS template editors are compared with reference edit models "
+    "(exactly the requested entries change; second application is a no-op; CP2K compared as unordered section trees). Sampled.",
+    "Editors are driven with the engines' call patterns; velocities fit the 15-character g96 field with either sign; LAMMPS write_for_run consumes its variables, so idempotence means 'function of template and settings'.",
+)
+add(
+    "C01",
+    "statistical property-based testing: replicated seeded simulations against closed-form crossing probabilities (jackknife 6-sigma band with re-test)",
+    "Configurations (move assignment, cap, workers, completion-order policy, restart plan incl. kills with jobs in flight) are run as 32 independent "
+    "replicas through the real scheduler/run_md/PathStorage with the lattice-walk plug-in engine; the conditional crossing probabilities are "
+    "estimated from the data file and restart file only and compared with (k+1)/(k+2) within 6 jackknife standard errors, with one re-test "
+    "(fresh seeds, doubled length, same sign required). quick: 4 configurations x 32 x 1500 steps; thorough: 28 configurations incl. all {sh,wf}^3 x 5000 steps.",
+    "Statistical: biases below ~6 SE (quick 0.03-0.07, thorough ~0.015-0.03) are not detected; small acceptance biases are C09's job.",
+)
+
 NOT_YET = "check not built yet in this session (design exists in DESIGN.md §4); will be claimed once its check is registered"
 
 
